@@ -287,3 +287,27 @@ package encode
 //@        && bytesOf(bobj(b))[L + result0 - 1] == ite(big, 71, 70)
 //@   ensures[C08] dataSize > 2147483647 ==> result1 != nil && blen(b) == L
 //@   ensures[C08] forall i :: 0 <= i && i < L ==> bytesOf(bobj(b))[i] == old(bytesOf(bobj(b)))[i]
+
+// ---- floats: big-endian IEEE bits ++ type
+
+//@ func EncodeFloat32
+//@   safety[C08]
+//@   requires b != nil
+//@   modifies buffer.len at b
+//@   modifies buffer.obj at b
+//@   modifies uint8
+//@   let L = blen(b)
+//@   ensures[C08,C10] result1 == nil && result0 == 5 && blen(b) == L + 5
+//@   ensures[C08,C10] f32OfBits(be32(bytesOf(bobj(b)), L)) == v && bytesOf(bobj(b))[L + 4] == 40
+//@   ensures[C08] forall i :: 0 <= i && i < L ==> bytesOf(bobj(b))[i] == old(bytesOf(bobj(b)))[i]
+
+//@ func EncodeFloat64
+//@   safety[C08]
+//@   requires b != nil
+//@   modifies buffer.len at b
+//@   modifies buffer.obj at b
+//@   modifies uint8
+//@   let L = blen(b)
+//@   ensures[C08,C10] result1 == nil && result0 == 9 && blen(b) == L + 9
+//@   ensures[C08,C10] f64OfBits(be64(bytesOf(bobj(b)), L)) == v && bytesOf(bobj(b))[L + 8] == 41
+//@   ensures[C08] forall i :: 0 <= i && i < L ==> bytesOf(bobj(b))[i] == old(bytesOf(bobj(b)))[i]
